@@ -10,6 +10,17 @@ SEMIWEAK = ['01fe01fe01fe01fe', 'fe01fe01fe01fe01', '1fe01fe00ef10ef1', 'e01fe01
             '1ffe1ffe0efe0efe', 'fe1ffe1ffe0efe0e', '011f011f010e010e', '1f011f010e010e01', 'e0fee0fef1fef1fe', 'fee0fee0fef1fef1']
 
 
+WEAK_BYTES = [0x01, 0xfe, 0xe0, 0xf1, 0x1f, 0x0e]          # the byte values the weak and semi-weak DES keys are written with
+
+
+def weak_alphabet_keys(stride=1):
+    """every key whose two halves are one repeated weak-key byte each (36; the 4 weak keys are among them), and every key
+    alternating two such bytes (36; the 12 semi-weak keys are of this form)"""
+    halves = [bytes([a]) * 4 + bytes([b]) * 4 for a in WEAK_BYTES for b in WEAK_BYTES]
+    alt = [bytes([a, b]) * 4 for a in WEAK_BYTES for b in WEAK_BYTES]
+    return halves + alt[::stride]
+
+
 def family(nbytes, stride=1):
     """single-bit family + {byte v repeated} + DATA, every `stride`-th element of the first two"""
     f = single_bits(nbytes)
@@ -32,11 +43,15 @@ def keys(c, stride=1):
         ks += _R.des_keys_with_equal_round_keys(0, 15)[::stride]
         ks += _R.des_keys_with_equal_round_keys(0, 1)[1::max(stride, 2) * 4]
         ks += _R.des_keys_with_equal_round_keys(7, 8)[1::max(stride, 2) * 4]
+        ks += weak_alphabet_keys(stride)
     if c == 'tdea':
         from mc.refs import blockciphers as _R
         sp = _R.des_keys_with_equal_round_keys(0, 15)
         e = expander(8, 12)
         ks += [sp[37] + e + sp[201], e + sp[99] + e, sp[5] + sp[5] + sp[250]]
+        e2 = expander(8, 13)
+        for j, wk in enumerate(weak_alphabet_keys(6)[::max(2, stride)]):      # a key of the weak-key alphabet in each of the three positions
+            ks.append([wk + e + e2, e + wk + e2, e + e2 + wk][j % 3])
     if c.startswith('tf'):
         # keys whose derived parity word k_Nw = C240 ^ k_0 ^ ... takes boundary values (an intermediate that is 0, 1, 2^32-1, ...)
         C240 = 0x1BD11BDAA9FC1A22
